@@ -292,7 +292,10 @@ static void log_raw(vh_ctx_t * v, vh_stepres_t * r, scpi_t * context, const char
     size_t n = len < sizeof r->raw ? len : sizeof r->raw;
     r->rawlen = (int) n; r->fullrawlen = (int) len;
     if (ptr && n) memcpy(r->raw, ptr, n);
-    r->rawoff = ptr ? (long) (ptr - context->param_list.cmd_raw.data) : -1;
+    /* offset of the raw extent inside the unit's program data (the header may live elsewhere: a library is free to compose the effective header
+     * outside the message - benign change C02-J); -1 for a pointer that is not inside the program data at all */
+    { const char * base = context->param_list.lex_state.buffer; int n = context->param_list.lex_state.len;
+      r->rawoff = (ptr && base && ptr >= base && ptr <= base + (n > 0 ? n : 0)) ? (long) (ptr - base) : -1; }
     if (v->log_enabled) { vh_buf_printf(&v->log, " off=%ld len=%zu \"", r->rawoff, len); if (ptr) vh_buf_add_escaped(&v->log, ptr, len); vh_buf_addc(&v->log, '"'); }
 }
 
